@@ -26,7 +26,8 @@ REPO = "/repo"
 # id, property, file, old, new, note
 MUTANTS = [
     # ---------------- C14 ----------------
-    ("c14-no-callback", "C14", "dependencies.py", "            dependent.callback(self)", "            pass", "dependents are never told that a conditioner was fitted"),
+    ("c14-no-callback", "C14", "dependencies.py", "        for dependent in self.dependents:\n            dependent.callback(self)", "        for dependent in self.dependents:\n            pass", "dependents are never told that a conditioner was fitted"),
+    ("c14-no-signal-at-late-registration", "C14", "dependencies.py", "        if getattr(self, \"_fitted\", False):", "        if False:", "the original defect repaired by 32985e9: a dependent declared after its conditioner was fitted waits forever"),
     ("c14-no-refit-in-callback", "C14", "dependencies.py", "                self.fit(self.x, self.y)", "                pass", "callback does not re-fit a function whose fit was deferred"),
     ("c14-subset-reversed", "C14", "dependencies.py", "if set(self.dependent_parameters.values()).issubset(self._fitted_conditioners):", "if self._fitted_conditioners.issubset(self.dependent_parameters.values()):", "the original defect: premature fit with two conditioners"),
     ("c14-warm-start", "C14", "dependencies.py", 'p0 = tuple(getattr(self, "_start_parameters", self.parameters).values())', "p0 = tuple(self.parameters.values())", "the original defect: fits start from the previous result"),
